@@ -4,7 +4,7 @@ import copy
 import random
 
 from vf import import_desper
-from vf.core import Res
+from vf.core import Res, HarnessError
 
 ID = 'C03'
 LEVEL = 'exploration'
@@ -99,6 +99,15 @@ def gen_one(rng, tier, scale=False):
                         'base2': base2})
     nh = rng.randint(1, 8 if big else 5) if not scale else 90
     handlers = [rng.randrange(ncls) for _ in range(nh)]
+    # a handler may carry its own mapping (instance attribute __events__)
+    # over the methods its class offers
+    inst_maps = []
+    for ci in handlers:
+        m = None
+        if not scale and defined[ci] and rng.random() < 0.12:
+            m = {ev: rng.choice(sorted(defined[ci]))
+                 for ev in rng.sample(EVENTS, rng.randint(1, 3))}
+        inst_maps.append(m)
     scripts = []
     for _ in range(nh):
         script = []
@@ -125,10 +134,17 @@ def gen_one(rng, tier, scale=False):
                         rng.sample(['k0', 'k1', 'k2', 'event_name'],
                                    rng.randint(0, 2))
                         if rng.random() < 0.4 else []])
-        else:
+        elif k < 0.97 or scale:
             ops.append(['is', rng.randrange(nh)])
+        else:
+            # events deferred while disabled and released by enabling; one
+            # callback of the release may raise (the program catches it and
+            # carries on with dispatching enabled)
+            ops.append(['burst', [rng.choice(EVENTS)
+                                  for _ in range(rng.randint(1, 4))],
+                        rng.choice([None, 0, 1, 2])])
     return {'classes': classes, 'handlers': handlers, 'scripts': scripts,
-            'ops': ops}
+            'ops': ops, 'inst_maps': inst_maps}
 
 
 def gen_cases(tier, seed):
@@ -168,6 +184,7 @@ def run_case(case):
     flags = set()
     tokn = [0]
     ever_removed = set()
+    burst = {'countdown': None, 'fault': None}
 
     d = desper.EventDispatcher()
 
@@ -179,6 +196,15 @@ def run_case(case):
             log.append({'call': stack[-1] if stack else None,
                         'fn': (ci, meth), 'recv': self.hidx, 'args': args,
                         'kwargs': kwargs})
+            if burst['countdown'] is not None:
+                if burst['countdown'] == 0:
+                    burst['countdown'] = None
+                    burst['fault'] = HarnessError('callback of a release')
+                    for c in stack:
+                        # dispatch calls the exception passes through
+                        calls[c]['interrupted'] = True
+                    raise burst['fault']
+                burst['countdown'] -= 1
             script = scripts[self.hidx]
             if script:
                 act(script.pop(0), inside=True)
@@ -232,6 +258,7 @@ def run_case(case):
         return res
 
     handlers = []
+    hmaps = {}          # handlers carrying their own mapping
     for hi, ci in enumerate(case['handlers']):
         if not mapping[ci]:
             # not an EventHandler at all: add_handler asserts on it
@@ -239,12 +266,17 @@ def run_case(case):
             continue
         h = classes[ci]()
         h.hidx = hi
+        own = (case.get('inst_maps') or [None] * (hi + 1))[hi]
+        if own:
+            h.__events__ = dict(own)
+            hmaps[hi] = dict(own)
+            flags.add('instance-mapping')
         handlers.append(h)
     scripts = [list(s) for s in case['scripts']]
 
     def expected_fn(hi, ev):
         ci = case['handlers'][hi]
-        meth = mapping[ci].get(ev)
+        meth = hmaps.get(hi, mapping[ci]).get(ev)
         if meth is None:
             return None
         # the function Python's attribute lookup finds on the class
@@ -275,6 +307,29 @@ def run_case(case):
                 calls[c]['changed'].add(op[1])
         elif name == 'is':
             pass
+        elif name == 'burst':
+            if inside or stack:
+                return
+            rec = {'ev': None, 'skip': True, 'at_call': set(),
+                   'changed': set(), 'nested': False}
+            calls.append(rec)
+            d.dispatch_enabled = False
+            for ev in op[1]:
+                tokn[0] += 1
+                d.dispatch(ev, Token(tokn[0]))
+            stack.append(len(calls) - 1)
+            burst['countdown'] = op[2]
+            burst['fault'] = None
+            try:
+                d.dispatch_enabled = True
+            except HarnessError as ex:
+                if ex is not burst['fault']:
+                    raise
+                flags.add('release-interrupted')
+            finally:
+                burst['countdown'] = None
+                stack.pop()
+            flags.add('deferred-burst')
         elif name == 'dispatch':
             ev = op[1]
             nargs = op[2] if len(op) > 2 else 1
@@ -325,6 +380,9 @@ def run_case(case):
             break
         for ci in range(first_call, len(calls)):
             rec = calls[ci]
+            if rec.get('skip'):
+                # deliveries of a release are the subject of C04
+                continue
             res.stats['dispatch_calls_checked'] += 1
             got = collections.Counter()
             for entry in by_call.get(ci, []):
@@ -356,7 +414,11 @@ def run_case(case):
             stable = listeners - rec['changed']
             for hi in set(got) | listeners:
                 n = got.get(hi, 0)
-                if hi in stable:
+                if rec.get('interrupted'):
+                    good = n <= 1
+                    exp = 'at most once (the dispatch was interrupted by a '\
+                          'raising callback)'
+                elif hi in stable:
                     good = n == 1
                     exp = 'exactly once'
                 elif hi in rec['changed']:
